@@ -236,14 +236,18 @@ def run(tier, seed):
     cpus = codec.cpu_list(vdir)
     by = {c["name"]: c for c in cpus}
 
-    # 1. the design
+    # 1. the design (the three address units side by side: the thorough configuration takes about half an hour each)
+    def mc(bpa):
+        cfg = C.tlc_cfg_with("mc_Listing_%s.cfg" % tier, os.path.join(rd, "cfg%d" % bpa), {"Bpa": bpa})
+        return bpa, C.tlc("MCListing", cfg, os.path.join(rd, "mc%d" % bpa), workers=6, heap="8g", timeout=5400)
     for bpa in (1, 2, 4):
-        cfg = C.tlc_cfg_with("mc_Listing_%s.cfg" % tier, rd, {"Bpa": bpa})
-        r = C.tlc("MCListing", cfg, os.path.join(rd, "mc%d" % bpa), workers=8, heap="6g")
-        chk.add_tlc(r)
-        if not r.ok:
-            chk.report("model:%s" % r.violated, "Listing design violates %s (bytes per address %d)" % (r.violated, bpa),
-                       dict(out=r.out[-3000:]))
+        os.makedirs(os.path.join(rd, "cfg%d" % bpa))
+    with ThreadPoolExecutor(3) as ex:
+        for bpa, r in ex.map(mc, (1, 2, 4)):
+            chk.add_tlc(r)
+            if not r.ok:
+                chk.report("model:%s" % r.violated, "Listing design violates %s (bytes per address %d)" % (r.violated, bpa),
+                           dict(out=r.out[-3000:]))
 
     # 2. shapes
     g = C.tlc("GenListing", "gen_Listing_%s.cfg" % tier, os.path.join(rd, "gen"), workers=4, heap="4g")
